@@ -79,7 +79,7 @@ def well_formed(variant, nbound):
     after segment 3, both insertions) - variant 0: all right, -f must change nothing; 1 and 2: wrong ones, to be repaired"""
     nh = 6 * nbound                          # HL segments of the inserted runs
     body1 = [seg('HL', n=str(nh + 1)), seg('B'), seg('HL', n=str(nh + 2), p=str(nh + 1)), seg('CLM'), seg('B')]
-    body2 = [seg('HL', n='1' if variant != 1 else '4'), seg('B')]
+    body2 = [seg('HL', n='1' if variant != 1 else '4'), seg('B', id='   ')]      # a value of blanks only is a value like any other (fixed-width back ends write them)
     se1 = len(body1) + 2 + nbound * (RUN + 1) + (3 if variant == 1 else 0)
     return ([seg('ISA', '1'), seg('GS', '1'), seg('ST', '1')] + body1 + [seg('SE', '1', str(se1))]
             + [seg('ST', '2')] + body2 + [seg('SE', '2', str(len(body2) + 2)), seg('GE', '1', '2' if variant != 2 else '7'),
